@@ -3,7 +3,7 @@ CONSTANTS
   Vers = {1, 2}
   Rates = {0, 1, 2}
   MTimes = {1, 2, 3, 4}
-  MaxEdits = 4
+  MaxEdits = 5
   MaxPolls = 0
   Hist = FALSE
   Forge = FALSE
